@@ -173,7 +173,7 @@ func c17GenOp(r *core.Rand, ser int, hasPayloadPUSI bool) C17Op {
 		op.Class = "afonly"
 	case 1:
 		op.Class = "afbad"
-		op.AFLen = r.Pick(184, 185, 200, 255)
+		op.AFLen = r.Pick(184, 185, 200, 250, 251, 255, r.Range(184, 255))
 	case 2, 3, 4:
 		op.Class = "afpay"
 		op.AFLen = r.Pick(0, 1, 2, 7, 100, 180, 181, 182, 183, r.Range(0, 183))
